@@ -379,9 +379,9 @@ theorem abort_ends_instance (n : Nat) (s : State) (u : Nat) (d : Bool) (s' : Sta
     (h : abortFlow n s u d = .ok s') :
     (d = true ∧ s' = setFlow s u { f with activated := f.activated - 1 } ∧ f.activated - 1 ≠ 0) ∨
     ∃ f', s'.flows u = some f' ∧ f'.status.listening = false := by
-  rcases Lifetime.abort_ends_instance n s u d s' f hf h with ⟨a, _, b, c⟩ | h
+  rcases Lifetime.abort_ends_instance n s u d s' f hf h with ⟨a, _, b, c⟩ | ⟨g, h1, h2, _⟩
   · exact Or.inl ⟨a, b, c⟩
-  · exact Or.inr h
+  · exact Or.inr ⟨g, h1, h2⟩
 
 /-- the child loop of `_abort_flow` / `_finish_flow` stops every non-activated child that is listed -/
 theorem children_stopped (n : Nat) (l : List Nat) (s s1 : State)
@@ -593,5 +593,117 @@ theorem lifetime_parent_form (ops : List IOp) (c p : Nat) (cf pf : Flow) (hc : (
     (hp : (run ops).flows p = some pf) (hlisted : c ∈ pf.children) (hl : cf.status.listening = true) (ha : cf.activated = 0) :
     pf.status.listening = true ∨ pf.status = .stopping :=
   (lifetime_invariant ops).flow.dc p pf c cf hp hlisted hc (fun h => h) ha hl
+
+
+/-! ## fuel: `abort_fuel_sufficient`, and what happens on a cyclic child graph -/
+
+/-- On an acyclic child graph (a rank `r` decreases along `child_flow_uids`) any fuel above the rank of the instance
+    suffices — in particular the number of instances —: the model never answers `Err.fuel`, i.e. the Python
+    recursion is bounded by the depth of the hierarchy. -/
+theorem abort_fuel_sufficient (r : Nat → Nat) (n : Nat) (s : State) (u : Nat) (d : Bool) (hr : Ranked r s) (hu : r u < n) :
+    abortFlow n s u d ≠ .error .fuel :=
+  abortFlow_no_fuel r n s u d hr hu
+
+theorem finish_fuel_sufficient (r : Nat → Nat) (n : Nat) (s : State) (u : Nat) (d : Bool) (hr : Ranked r s) (hu : r u ≤ n) :
+    finishFlow n s u d ≠ .error .fuel :=
+  finishFlow_no_fuel r n s u d hr hu
+
+/-- two listening instances that list each other as children (what two mutually activating flows look like once
+    both reference counts have reached 0) -/
+def cyc : State :=
+  { flows := fun u => if u = 0 then some ⟨0, none, [1], .started, 0, false, [], [], 1, false⟩
+                      else if u = 1 then some ⟨1, some 0, [0], .started, 0, false, [], [], 1, false⟩ else none,
+    actions := fun _ => none, order := [0, 1], queue := [], out := [] }
+
+/-- **as-is counterexample (open finding `activation-cycle-recursion`)**: on a cyclic child graph NO fuel suffices —
+    the Python recursion of `_abort_flow` does not terminate (RecursionError escapes `run_to_completion`). -/
+theorem abort_cyclic_as_is_counterexample : ∀ n : Nat,
+    abortFlow n cyc 0 true = .error .fuel ∧ abortFlow n cyc 1 true = .error .fuel
+  | 0 => ⟨rfl, rfl⟩
+  | n + 1 => by
+    obtain ⟨h0, h1⟩ := abort_cyclic_as_is_counterexample n
+    constructor
+    · simp [abortFlow, deactivatePhase, abortBody, childLoop, isRefActivated, isChildActivated, cyc, FStatus.listening]
+      have : abortFlow n cyc 1 true = .error .fuel := h1
+      simp [cyc] at this
+      simp [this]
+    · simp [abortFlow, deactivatePhase, abortBody, childLoop, isRefActivated, isChildActivated, cyc, FStatus.listening]
+      have : abortFlow n cyc 0 true = .error .fuel := h0
+      simp [cyc] at this
+      simp [this]
+
+/-! ## the transitive statement -/
+
+/-- `c` is reachable from `u` through `child_flow_uids` (any depth) along non-activated instances -/
+inductive Desc (s : State) (u : Nat) : Nat → Prop
+  | child {c : Nat} {pf cf : Flow} : s.flows u = some pf → c ∈ pf.children → s.flows c = some cf → cf.activated = 0 → Desc s u c
+  | step {m c : Nat} {mf cf : Flow} : Desc s u m → s.flows m = some mf → c ∈ mf.children → s.flows c = some cf →
+      cf.activated = 0 → Desc s u c
+
+/-- in a state satisfying the lifetime clause, below an ended instance nothing non-activated is listening -/
+theorem descendants_of_ended (s : State) (hd : DC NoEx s) (hns : ∀ v g, s.flows v = some g → g.status ≠ .stopping)
+    (u : Nat) (f : Flow) (hf : s.flows u = some f) (hu : f.status.listening = false) (c : Nat) (h : Desc s u c) :
+    ∃ cf, s.flows c = some cf ∧ cf.status.listening = false := by
+  induction h with
+  | @child c pf cf hp hc hcf ha =>
+    rw [hf] at hp; cases hp
+    refine ⟨cf, hcf, ?_⟩
+    cases hl : cf.status.listening with
+    | false => rfl
+    | true =>
+      rcases hd u f c cf hf hc hcf (fun h => h) ha hl with h | h
+      · rw [hu] at h; cases h
+      · exact absurd h (hns u f hf)
+  | @step m c mf cf _ hm hc hcf ha ih =>
+    obtain ⟨mf', hm', hml⟩ := ih
+    rw [hm] at hm'; cases hm'
+    refine ⟨cf, hcf, ?_⟩
+    cases hl : cf.status.listening with
+    | false => rfl
+    | true =>
+      rcases hd m mf c cf hm hc hcf (fun h => h) ha hl with h | h
+      · rw [hml] at h; cases h
+      · exact absurd h (hns m mf hm)
+
+/-- **the transitive statement as ONE theorem.**  In a state satisfying the hierarchy invariant (every reachable
+    state does: `lifetime_invariant`) in which no instance other than `u` is STOPPING: after `_abort_flow(u)` returns —
+    unless it was the deactivation of a reference instance that other activators still hold — EVERY instance reachable
+    from `u` through child uids, at any depth, along non-activated instances is not listening; the invariant holds again. -/
+theorem abort_descendants_stopped (n : Nat) (s : State) (u : Nat) (d : Bool) (s' : State) (f : Flow)
+    (hi : FlowInv s) (hf : s.flows u = some f)
+    (hns : ∀ v g, s.flows v = some g → g.status = .stopping → v = u)
+    (h : abortFlow n s u d = .ok s') :
+    FlowInv s' ∧
+    ((d = true ∧ s' = setFlow s u { f with activated := f.activated - 1 } ∧ f.activated - 1 ≠ 0) ∨
+     ∀ c, Desc s' u c → ∃ cf, s'.flows c = some cf ∧ cf.status.listening = false) := by
+  have hi' := abort_flowInv hi n u d s' h
+  refine ⟨hi', ?_⟩
+  rcases Lifetime.abort_ends_instance n s u d s' f hf h with ⟨a, _, b, c⟩ | ⟨f', hf', hl', hns0⟩
+  · exact Or.inl ⟨a, b, c⟩
+  · right
+    -- no instance is STOPPING afterwards
+    have hns' : ∀ v g, s'.flows v = some g → g.status ≠ .stopping := by
+      intro v g hv hst
+      obtain ⟨s6, gd, tail⟩ := abortFlow_good_any n NoEx s u d s' hi.sfc h
+      have hv6 : ∃ g6, s6.flows v = some g6 ∧ g6.status = .stopping := by
+        rcases tail with e | hr
+        · subst e; exact ⟨g, hv, hst⟩
+        · obtain ⟨_, hc⟩ := restart_core _ _ _ _ hr
+          obtain ⟨g6, h6, e6⟩ := core_back hc v g hv
+          simp only [core, Prod.mk.injEq] at e6
+          exact ⟨g6, h6, by rw [e6.2.2.2.1]; exact hst⟩
+      obtain ⟨g6, h6, hst6⟩ := hv6
+      obtain ⟨g0, h0, hu0⟩ := gd.steps.flows_back v g6 h6
+      have hs0 : g0.status = .stopping := by
+        rcases hu0.status with e | e | e
+        · rw [← e]; exact hst6
+        · rw [e] at hst6; cases hst6
+        · rw [e] at hst6; cases hst6
+      have hvu := hns v g0 h0 hs0
+      subst hvu
+      rw [hf'] at hv; cases hv
+      exact hns0 hst
+    intro c hc
+    exact descendants_of_ended s' hi'.dc hns' u f' hf' hl' c hc
 
 end NemoVerif.C06
